@@ -17,6 +17,11 @@
     gosort <s>,<s>,…         → <s>,<s>,…                    sort.Strings
     goreadfull <data> <fail> <n> → <bytes> nil|eof|unexpected|src rest=<k>    io.ReadFull on a source that ends cleanly or fails
     gobufread <data> <delim> → <bytes> nil|eof rest=<k>     bufio.Reader.ReadBytes
+    goallspace <b>           → 0|1                          len(bytes.TrimSpace(b)) == 0
+    gocontainsany <b> <set>  → 0|1                          bytes.ContainsAny, ASCII set
+    goitoa <int>             → <bytes>                      strconv.Itoa
+    gohex <b>                → <bytes>                      hex.EncodeToString
+    goreadalllimit <data> <n> → <bytes> nil rest=<k>        io.ReadAll(io.LimitReader(bufio.Reader, n))
 -/
 import AgeModel.Wire
 import AgeModel.GoSem
@@ -99,6 +104,23 @@ def handle (op : String) (args : List String) : Option String :=
         let r := Go.bufio_ReadBytes d c
         s!"{hexOrDash r.1} {if r.2.1 == none then "nil" else "eof"} rest={r.2.2.length}"
       | _ => "bad-args"
+  | "goallspace" => some <| b1 args fun s => bit (Go.bytes_allSpace s)
+  | "gocontainsany" => some <| b2 args fun s set => bit (Go.bytes_ContainsAny s set)
+  | "goitoa" => some <|
+      match args with
+      | [v] => match v.toInt? with
+        | some i => hexOrDash (Go.strconv_Itoa i)
+        | none => "bad-args"
+      | _ => "bad-arity"
+  | "gohex" => some <| b1 args fun s => hexOrDash (Go.hex_EncodeToString s)
+  | "goreadalllimit" => some <|
+      match args with
+      | [d, n] => match unhex d, n.toNat? with
+        | some d, some n =>
+          let r := Go.io_ReadAllLimit d (Int.ofNat n)
+          s!"{hexOrDash r.1} {if r.2.1 == none then "nil" else "err"} rest={r.2.2.length}"
+        | _, _ => "bad-args"
+      | _ => "bad-arity"
   | _ => none
 
 end GoSem
